@@ -129,6 +129,11 @@ func runCensus(repo string) (*census, error) {
 		if err != nil {
 			return nil, fmt.Errorf("census: %v", err)
 		}
+		type parsed struct {
+			nm string
+			af *ast.File
+		}
+		var files []parsed
 		for _, e := range ents {
 			nm := e.Name()
 			if e.IsDir() || !strings.HasSuffix(nm, ".go") || strings.HasSuffix(nm, "_test.go") || strings.HasSuffix(nm, "_mocks.go") ||
@@ -139,6 +144,21 @@ func runCensus(repo string) (*census, error) {
 			if err != nil {
 				return nil, fmt.Errorf("census: %v", err)
 			}
+			files = append(files, parsed{nm, af})
+		}
+		// same-package boolean helpers (one level): `func h(p…) bool { return <expr> }` or if/return-constant chains
+		helpers := map[string]*boolHelper{}
+		for _, pf := range files {
+			for _, decl := range pf.af.Decls {
+				if fd, ok := decl.(*ast.FuncDecl); ok {
+					if h := asBoolHelper(fd); h != nil {
+						helpers[fd.Name.Name] = h
+					}
+				}
+			}
+		}
+		for _, pf := range files {
+			nm, af := pf.nm, pf.af
 			pkgNames := map[string]bool{}
 			for _, im := range af.Imports {
 				pth, _ := strconv.Unquote(im.Path.Value)
@@ -185,7 +205,7 @@ func runCensus(repo string) (*census, error) {
 							return true
 						})
 					}
-					w := &derefWalker{fields: cs.Fields, pkgNames: pkgNames, hit: func(field, kind, path string, guarded bool) {
+					w := &derefWalker{fields: cs.Fields, pkgNames: pkgNames, helpers: helpers, hit: func(field, kind, path string, guarded bool) {
 						k := [3]string{fn, field, kind}
 						a := pairs[k]
 						if a == nil {
@@ -230,6 +250,116 @@ type derefWalker struct {
 	fields   map[string][]string
 	pkgNames map[string]bool
 	hit      func(field, kind, path string, guarded bool)
+	helpers  map[string]*boolHelper
+}
+
+// boolHelper: a package-level function whose result is a Boolean expression over its parameters
+type boolHelper struct {
+	params []string
+	expr   ast.Expr
+}
+
+func constBool(e ast.Expr) (bool, bool) {
+	if id, ok := unparen(e).(*ast.Ident); ok && (id.Name == "true" || id.Name == "false") {
+		return id.Name == "true", true
+	}
+	return false, false
+}
+
+// asBoolHelper recognises `func h(a T, b U) bool { return <expr> }` and chains `if c { return true|false } … return <expr>`
+// (no receiver, no init statements, no else): the chain is folded into one expression (c || rest, !c && rest).
+func asBoolHelper(fd *ast.FuncDecl) *boolHelper {
+	if fd.Recv != nil || fd.Body == nil || fd.Type.Results == nil || len(fd.Type.Results.List) != 1 {
+		return nil
+	}
+	if id, ok := fd.Type.Results.List[0].Type.(*ast.Ident); !ok || id.Name != "bool" || len(fd.Type.Results.List[0].Names) > 0 {
+		return nil
+	}
+	var params []string
+	for _, f := range fd.Type.Params.List {
+		if len(f.Names) == 0 {
+			return nil
+		}
+		for _, n := range f.Names {
+			params = append(params, n.Name)
+		}
+	}
+	list := fd.Body.List
+	if len(list) == 0 || len(list) > 6 {
+		return nil
+	}
+	last, ok := list[len(list)-1].(*ast.ReturnStmt)
+	if !ok || len(last.Results) != 1 {
+		return nil
+	}
+	expr := last.Results[0]
+	for i := len(list) - 2; i >= 0; i-- {
+		ifs, ok := list[i].(*ast.IfStmt)
+		if !ok || ifs.Init != nil || ifs.Else != nil || len(ifs.Body.List) != 1 {
+			return nil
+		}
+		ret, ok := ifs.Body.List[0].(*ast.ReturnStmt)
+		if !ok || len(ret.Results) != 1 {
+			return nil
+		}
+		v, isConst := constBool(ret.Results[0])
+		if !isConst {
+			return nil
+		}
+		if v {
+			expr = &ast.BinaryExpr{X: &ast.ParenExpr{X: ifs.Cond}, Op: token.LOR, Y: &ast.ParenExpr{X: expr}}
+		} else {
+			expr = &ast.BinaryExpr{X: &ast.UnaryExpr{Op: token.NOT, X: &ast.ParenExpr{X: ifs.Cond}}, Op: token.LAND, Y: &ast.ParenExpr{X: expr}}
+		}
+	}
+	return &boolHelper{params: params, expr: expr}
+}
+
+// simplePath: an identifier or a chain of field selections from one (the only argument shapes that are substituted)
+func simplePath(e ast.Expr) bool {
+	switch x := unparen(e).(type) {
+	case *ast.Ident:
+		return true
+	case *ast.SelectorExpr:
+		return simplePath(x.X)
+	}
+	return false
+}
+
+// throughHelper: cond is a call of a same-package Boolean helper with simple arguments -> the paths its body makes
+// non-nil, with the parameters replaced by the arguments; nil (nothing known) in every other case
+func (w *derefWalker) throughHelper(cond ast.Expr, truth bool) []string {
+	call, ok := unparen(cond).(*ast.CallExpr)
+	if !ok || w.helpers == nil {
+		return nil
+	}
+	id, ok := call.Fun.(*ast.Ident)
+	if !ok {
+		return nil
+	}
+	h := w.helpers[id.Name]
+	if h == nil || len(call.Args) != len(h.params) {
+		return nil
+	}
+	args := map[string]string{}
+	for i, a := range call.Args {
+		if !simplePath(a) {
+			return nil
+		}
+		args[h.params[i]] = types.ExprString(unparen(a))
+	}
+	inner := &derefWalker{} // one level only: no helpers inside the helper
+	var out []string
+	for _, p := range inner.nonNilWhen(h.expr, truth) {
+		root, rest := p, ""
+		if i := strings.Index(p, "."); i >= 0 {
+			root, rest = p[:i], p[i:]
+		}
+		if a, ok := args[root]; ok {
+			out = append(out, a+rest)
+		} // a path that does not start at a parameter says nothing about the caller's variables
+	}
+	return out
 }
 
 func copySet(m map[string]bool, extra []string) map[string]bool {
@@ -271,15 +401,18 @@ func nilTest(e ast.Expr) (string, token.Token, bool) {
 }
 
 // nonNilWhen: access paths that are non-nil when cond evaluates to `truth`
-func nonNilWhen(cond ast.Expr, truth bool) []string {
+func (w *derefWalker) nonNilWhen(cond ast.Expr, truth bool) []string {
 	cond = unparen(cond)
 	if u, ok := cond.(*ast.UnaryExpr); ok && u.Op == token.NOT {
-		return nonNilWhen(u.X, !truth)
+		return w.nonNilWhen(u.X, !truth)
 	}
 	if b, ok := cond.(*ast.BinaryExpr); ok {
 		if (truth && b.Op == token.LAND) || (!truth && b.Op == token.LOR) {
-			return append(nonNilWhen(b.X, truth), nonNilWhen(b.Y, truth)...)
+			return append(w.nonNilWhen(b.X, truth), w.nonNilWhen(b.Y, truth)...)
 		}
+	}
+	if _, ok := cond.(*ast.CallExpr); ok {
+		return w.throughHelper(cond, truth)
 	}
 	if p, op, ok := nilTest(cond); ok {
 		if (truth && op == token.NEQ) || (!truth && op == token.EQL) {
@@ -322,9 +455,9 @@ func (w *derefWalker) stmts(list []ast.Stmt, known map[string]bool) {
 			}
 			switch {
 			case bodyEnds && !elseEnds:
-				known = copySet(known, nonNilWhen(ifs.Cond, false))
+				known = copySet(known, w.nonNilWhen(ifs.Cond, false))
 			case elseEnds && !bodyEnds && ifs.Else != nil:
-				known = copySet(known, nonNilWhen(ifs.Cond, true))
+				known = copySet(known, w.nonNilWhen(ifs.Cond, true))
 			}
 		}
 	}
@@ -371,17 +504,17 @@ func (w *derefWalker) node(n ast.Node, known map[string]bool) {
 			w.node(x.Init, known)
 		}
 		w.node(x.Cond, known)
-		w.stmts(x.Body.List, copySet(known, nonNilWhen(x.Cond, true)))
+		w.stmts(x.Body.List, copySet(known, w.nonNilWhen(x.Cond, true)))
 		if x.Else != nil {
-			w.node(x.Else, copySet(known, nonNilWhen(x.Cond, false)))
+			w.node(x.Else, copySet(known, w.nonNilWhen(x.Cond, false)))
 		}
 	case *ast.BinaryExpr:
 		w.node(x.X, known)
 		switch x.Op {
 		case token.LAND:
-			w.node(x.Y, copySet(known, nonNilWhen(x.X, true)))
+			w.node(x.Y, copySet(known, w.nonNilWhen(x.X, true)))
 		case token.LOR:
-			w.node(x.Y, copySet(known, nonNilWhen(x.X, false)))
+			w.node(x.Y, copySet(known, w.nonNilWhen(x.X, false)))
 		default:
 			w.node(x.Y, known)
 		}
